@@ -128,14 +128,22 @@ func (c16) Run(c Tok) Tok {
 	case 4:
 		scs := c.At(2).L
 		out := make([]Tok, len(scs))
+		// a second run of the same scenarios one after the other in the opposite order: what a Demuxer delivers must
+		// not depend on which other Demuxers were used before it or alongside it
+		rev := make([]Tok, len(scs))
+		runRev := func() {
+			for i := len(scs) - 1; i >= 0; i-- {
+				rev[i] = runScenario(scenarioOf(scs[i])).observation()
+			}
+		}
 		if c.At(1).Int() == 0 {
 			for i := range scs {
 				out[i] = runScenario(scenarioOf(scs[i])).observation()
 			}
-			return L(out...)
+			runRev()
+			return L(L(out...), L(rev...))
 		}
 		yieldInRead.Store(true)
-		defer yieldInRead.Store(false)
 		var wg sync.WaitGroup
 		start := make(chan struct{})
 		for i := range scs {
@@ -148,7 +156,9 @@ func (c16) Run(c Tok) Tok {
 		}
 		close(start)
 		wg.Wait()
-		return L(out...)
+		yieldInRead.Store(false)
+		runRev()
+		return L(L(out...), L(rev...))
 	}
 	return L()
 }
@@ -222,6 +232,13 @@ func (c16) Oracle(c Tok, obs Tok) string {
 	case 2:
 		if obs.At(1).Int() != 1 {
 			return "the Muxer modified the caller's payload bytes"
+		}
+	case 4:
+		a, b := obs.At(0), obs.At(1)
+		for i := range a.L {
+			if i < len(b.L) && a.L[i].String() != b.L[i].String() {
+				return fmt.Sprintf("demuxer %d of %d delivers different results depending on the other demuxers of the process (run %s / run last-to-first one after the other)", i, len(a.L), []string{"first-to-last one after the other", "interleaved in goroutines"}[c.At(1).Int()])
+			}
 		}
 	case 3:
 		if obs.Int() != 1 {
